@@ -151,3 +151,56 @@ Theorem C06_source_bline_rank1 : forall l i, length l = 8%nat -> Forall (fun w =
   g_bline_rank1 l i = Val (bline_rank1 l i).
 Proof. exact g_bline_rank1_ok. Qed.
 Print Assumptions C06_source_bline_rank1.
+
+From QwtModel Require Import FnsNewOk.
+
+(* ---- T5: the CONSTRUCTORS RSNarrow::new and RSWide::new REGENERATED from the source too (Gen/FnsRsn2.v g_rsn_new,
+   Gen/FnsRsw2.v g_rsw_new: the nested enumerate loops over lines and words, the packed counters, the hint samples in a
+   local array of vectors, the returned struct as the tuple of its fields). With them the statement no longer mentions
+   the hand-modelled constructor: for every bit sequence, the regenerated constructor applied to the bit vector followed
+   by the regenerated queries returns the list specification. The only hand-modelled step left is bv_from_bools. *)
+Theorem C06_source_rsnarrow_end_to_end : forall bs bv, len bs < 2 ^ 43 -> bv_from_bools bs = Val bv ->
+  exists pairs samples,
+    g_rsn_new (chunks 8 (bv_words bv)) (bv_nbits bv) (bv_nones bv)
+      = Val (chunks 8 (bv_words bv), bv_nbits bv, bv_nones bv, pairs, samples) /\
+    (forall fuel k, (S (length pairs) <= fuel)%nat -> k < 2 ^ 64 ->
+       g_rsn_select1 fuel (chunks 8 (bv_words bv)) (bv_nbits bv) pairs samples k = Val (select1_spec bs k)) /\
+    (forall fuel k, (S (length pairs) <= fuel)%nat -> k < 2 ^ 64 ->
+       g_rsn_select0 fuel (chunks 8 (bv_words bv)) (bv_nbits bv) pairs samples k = Val (select0_spec bs k)) /\
+    (forall i, i < 2 ^ 64 ->
+       g_rsn_rank1 (chunks 8 (bv_words bv)) (bv_nbits bv) pairs i
+       = Val (if negb (len bs =? 0) && (i <=? len bs) then Some (rank1_spec bs i) else None)) /\
+    g_rsn_n_ones (chunks 8 (bv_words bv)) (bv_nbits bv) pairs = Val (countb bs) /\
+    g_rsn_n_zeros (chunks 8 (bv_words bv)) (bv_nbits bv) pairs = Val (len bs - countb bs) /\
+    (forall i, g_bv_get (chunks 8 (bv_words bv)) (bv_nbits bv) i = Val (nthN bs i)) /\
+    (forall i, 0 < len bs -> i <= len bs ->
+       g_rsn_rank1_unchecked (chunks 8 (bv_words bv)) pairs i = Val (rank1_spec bs i)) /\
+    (forall fuel k p, (S (length pairs) <= fuel)%nat -> select1_spec bs k = Some p ->
+       g_rsn_select1_unchecked fuel (chunks 8 (bv_words bv)) pairs samples k = Val p) /\
+    (forall fuel k p, (S (length pairs) <= fuel)%nat -> select0_spec bs k = Some p ->
+       g_rsn_select0_unchecked fuel (chunks 8 (bv_words bv)) pairs samples k = Val p).
+Proof. exact g_rsn_new_of_bools_correct. Qed.
+Print Assumptions C06_source_rsnarrow_end_to_end.
+
+Theorem C06_source_rswide_end_to_end : forall bs bv, len bs < 2 ^ 43 -> bv_from_bools bs = Val bv ->
+  exists meta samples n_zeros,
+    g_rsw_new (chunks 8 (bv_words bv)) (bv_nbits bv) (bv_nones bv)
+      = Val (chunks 8 (bv_words bv), bv_nbits bv, bv_nones bv, meta, samples, n_zeros) /\
+    (forall fuel k, (S (length meta) <= fuel)%nat -> k < 2 ^ 64 ->
+       g_rsw_select1 fuel (chunks 8 (bv_words bv)) (bv_nbits bv) meta samples n_zeros k = Val (select1_spec bs k)) /\
+    (forall fuel k, (S (length meta) <= fuel)%nat -> k < 2 ^ 64 ->
+       g_rsw_select0 fuel (chunks 8 (bv_words bv)) meta samples n_zeros k = Val (select0_spec bs k)) /\
+    (forall i, i < 2 ^ 64 ->
+       g_rsw_rank1 (chunks 8 (bv_words bv)) (bv_nbits bv) meta i
+       = Val (if negb (len bs =? 0) && (i <=? len bs) then Some (rank1_spec bs i) else None)) /\
+    g_rsw_n_ones (bv_nbits bv) n_zeros = Val (countb bs) /\
+    g_rsw_n_zeros n_zeros = Val (len bs - countb bs) /\
+    (forall i, g_rsw_get (chunks 8 (bv_words bv)) (bv_nbits bv) i = Val (nthN bs i)) /\
+    (forall i, 0 < len bs -> i <= len bs ->
+       g_rsw_rank1_unchecked (chunks 8 (bv_words bv)) meta i = Val (rank1_spec bs i)) /\
+    (forall fuel k p, (S (length meta) <= fuel)%nat -> k < 2 ^ 64 -> select1_spec bs k = Some p ->
+       g_rsw_select1_unchecked fuel (chunks 8 (bv_words bv)) meta samples k = Val p) /\
+    (forall fuel k p, (S (length meta) <= fuel)%nat -> k < 2 ^ 64 -> select0_spec bs k = Some p ->
+       g_rsw_select0_unchecked fuel (chunks 8 (bv_words bv)) meta samples k = Val p).
+Proof. exact g_rsw_new_of_bools_correct. Qed.
+Print Assumptions C06_source_rswide_end_to_end.
